@@ -36,7 +36,10 @@ CONSTANTS
   MaxOutstanding,   \* ShareFinder.max_outstanding_requests
   Validate,         \* subset of AllChecks
   ReadRanges,       \* set of <<lo, hi>> segment ranges a reader may ask for
-  Advs              \* set of adversary configurations (see MCDownload)
+  Advs,             \* set of adversary configurations (see MCDownload)
+  StopMode          \* readers that go away (consumer calls stopProducing): "none" = never; "restart" = node.py
+                    \* _cancel_request (stop the orphaned fetch, then _start_new_segment); "norestart" = the variant
+                    \* that forgets _start_new_segment (demonstration: the queue is never served again)
 
 AllChecks == {"ueb", "shh", "bht", "cht", "blk", "seg"}
 Segs == 0..(NumSegs - 1)
@@ -161,6 +164,24 @@ TurnDeliver(ev, rest) ==
                 /\ GetSegment(r, ev.seg + 1, rest)
     ELSE /\ rd' = [rd EXCEPT ![r] = AfterResult(Judge(rd[r], ResultClause(rd[r], ev.cls, MCG, SegsOf(rd[r].off, rd[r].end - rd[r].off, 1))), ev.cls)]
          /\ evq' = rest /\ UNCHANGED <<requests, active, fetch, fet>>
+
+(* Segmentation.stopProducing -> DownloadNode._cancel_request: the reader's queued request is dropped; if nobody else
+   waits for the active segment its fetcher is stopped, _active_segment is cleared (also a stale one) and the next
+   queued request is started.  Results already on their way to the stopped reader are ignored by it. *)
+StopRead(r) ==
+  /\ StopMode # "none" /\ rd[r].st = "pending"
+  /\ LET q == SelectSeq(requests, LAMBDA x : x.r # r)
+         e0 == SelectSeq(evq, LAMBDA x : ~(x.t = "deliver" /\ x.r = r))
+         orphan == active # 0 /\ \A j \in 1..Len(q) : q[j].seg # active - 1
+     IN /\ rd' = [rd EXCEPT ![r].st = "stopped"]
+        /\ requests' = q
+        /\ IF orphan
+             THEN LET e1 == PurgeFetcher(e0)
+                      s == IF StopMode = "restart" THEN StartNewSegment(q, 0, "idle", e1)
+                           ELSE [active |-> 0, fetch |-> "idle", fet |-> NoFetcher, evq |-> e1]
+                  IN active' = s.active /\ fetch' = s.fetch /\ fet' = s.fet /\ evq' = s.evq
+             ELSE evq' = e0 /\ UNCHANGED <<active, fetch, fet>>
+  /\ UNCHANGED <<adv, fin, node, tampers>>
 
 (* =================================== node layer alone: the fetcher's guarantee =================================== *)
 AbsFetchFailed ==
@@ -330,6 +351,7 @@ Turn ==
 
 Next ==
   \/ \E r \in Readers : StartRead(r)
+  \/ \E r \in Readers : StopRead(r)
   \/ Turn
   \/ AbsFetchFailed \/ AbsGotBlocks
   \/ \E s \in Servers : DYHBAnswer(s) \/ Overdue(s)
@@ -348,7 +370,7 @@ Spec == Init /\ [][Next]_vars /\ Fair
 (* =================================== properties =================================== *)
 TypeOK ==
   /\ active \in 0..NumSegs /\ fetch \in {"idle", "running", "stale"}
-  /\ \A r \in Readers : rd[r].st \in {"new", "pending", "done", "failed"}
+  /\ \A r \in Readers : rd[r].st \in {"new", "pending", "done", "failed", "stopped"}
   /\ (active = 0) = (fetch = "idle")
 
 \* C46
